@@ -650,7 +650,7 @@ static void set_word(PDU& root, int kind, uint16_t v) {
 // values of the reduced sweep: stride 251, boundaries, and (computed with the reference sum) the values that drive each checksum field to 0x0000 / 0xffff
 static std::vector<uint32_t> reduced_values(PDU& root, int kind) {
     std::set<uint32_t> v;
-    for (uint32_t x = 0; x < 65536; x += 251) v.insert(x);
+    for (uint32_t x = 0; x < 65536; x += (A.thorough() ? 13 : 251)) v.insert(x);
     for (uint32_t x : {0u, 1u, 2u, 0xfeu, 0xffu, 0x100u, 0x101u, 0x7fffu, 0x8000u, 0x8001u, 0xff00u, 0xfffeu, 0xffffu}) v.insert(x);
     // the checksum is linear in the word: field(v) = ~(S0 +' v) (or byte-swapped for the odd placement). Probe v = 0, read every 16-bit checksum
     // field the dissector found, and add the words that bring that field to 0xffff, 0x0000 and their neighbours.
@@ -713,10 +713,11 @@ static void sweep(const Shape& sh, size_t shape_no, int kind, int job, int njobs
 static void family_x(int job, int njobs) {
     std::vector<Shape> sh = shapes();
     size_t no = 0;
-    static const size_t sizes[] = {0, 1, 2, 3, 4, 5, 6, 7, 8, 9, 17, 18, 19, 25, 26, 27, 45, 46, 47, 100, 127, 128, 129, 130, 131, 132, 133, 255, 256, 1471, 1472, 1473, 9000};
+    std::vector<size_t> sizes;
+    for (size_t n = 0; n <= (A.thorough() ? 1600u : 140u); ++n) sizes.push_back(n);
+    for (size_t n : {255, 256, 1471, 1472, 1473, 9000, 32767, 32768}) if (n > sizes.back()) sizes.push_back(n);
     for (size_t si = 0; si < sh.size(); ++si) {
         for (size_t n : sizes) {
-            if (!A.thorough() && n > 133 && n != 1472) continue;
             if (no++ % njobs != (size_t)job && g_only.empty()) continue;
             check_packet(sh[si].make(n), "family=X shape=" + std::to_string(si) + " payload=" + std::to_string(n));
         }
@@ -832,6 +833,64 @@ static void family_x(int job, int njobs) {
     }
 }
 
+// family V: a field the harness sets swept through its whole domain; the libpcap predicates for that field are compiled per value
+static void eval_once(int dlt, const std::string& expr, bool expect, const char* kind, const Bytes& w, const std::string& kase) {
+    pcap_t*& pc = g_dead[dlt];
+    if (!pc) pc = pcap_open_dead(dlt, 65535);
+    bpf_program bp;
+    if (pcap_compile(pc, &bp, expr.c_str(), 1, PCAP_NETMASK_UNKNOWN) != 0) { R.violation("harness:pcap-compile", std::string(pcap_geterr(pc)) + " in: " + expr, kase); return; }
+    pcap_pkthdr h; memset(&h, 0, sizeof h); h.caplen = h.len = (bpf_u_int32)w.size();
+    bool m = pcap_offline_filter(&bp, &h, w.data()) != 0;
+    pcap_freecode(&bp);
+    R.count(expect ? "pcap_predicates_value_set" : "pcap_predicates_other_value");
+    if (m != expect)
+        R.violation(std::string("pcap:") + (expect ? "no-match-for-value-set:" : "match-for-other-value:") + kind,
+                    "filter '" + expr + "' on DLT " + std::to_string(dlt) + (m ? " matches" : " does not match") + " frame " + hex(w).substr(0, 400), kase);
+}
+static void family_v(int job, int njobs) {
+    struct VS { const char* name; int lo, hi; std::function<PDU*(int)> make; std::function<std::string(int)> pred; const char* kind; };
+    std::vector<VS> vs;
+    vs.push_back(VS{"tcp-sport eth/ip/tcp", 0, 65535, [](int v) -> PDU* { return (eth() / ip4() / TCP(80, (uint16_t)v) / raw(3)).clone(); }, [](int v) { return "tcp src port " + std::to_string(v); }, "tcp src port"});
+    vs.push_back(VS{"tcp-dport eth/ipv6/tcp", 0, 65535, [](int v) -> PDU* { return (eth() / ip6() / TCP((uint16_t)v, 9) / raw(4)).clone(); }, [](int v) { return "tcp dst port " + std::to_string(v); }, "tcp dst port/6"});
+    vs.push_back(VS{"udp-dport eth/dot1q/ip/udp", 0, 65535, [](int v) -> PDU* { return (eth() / Dot1Q(7) / ip4() / UDP((uint16_t)v, 9) / raw(3)).clone(); }, [](int v) { return "vlan 7 and udp dst port " + std::to_string(v); }, "udp dst port"});
+    vs.push_back(VS{"udp-sport ipv6/udp", 0, 65535, [](int v) -> PDU* { return (ip6() / UDP(9, (uint16_t)v) / raw(2)).clone(); }, [](int v) { return "udp src port " + std::to_string(v); }, "udp src port/6"});
+    vs.push_back(VS{"vlan-id eth/dot1q/ip/udp", 0, 4095, [](int v) -> PDU* { return (eth() / Dot1Q((uint16_t)v) / ip4() / UDP(1, 2) / raw(3)).clone(); }, [](int v) { return "vlan " + std::to_string(v); }, "vlan"});
+    vs.push_back(VS{"vlan-id inner eth/dot1q/dot1q/ipv6/tcp", 0, 4095, [](int v) -> PDU* { return (eth() / Dot1Q(9) / Dot1Q((uint16_t)v) / ip6() / TCP(1, 2)).clone(); }, [](int v) { return "vlan 9 and vlan " + std::to_string(v); }, "vlan"});
+    vs.push_back(VS{"pppoe-session-id", 0, 65535, [](int v) -> PDU* { PPPoE p; p.code(0); p.session_id((uint16_t)v); Bytes pr = {0x00, 0x21}; return (eth() / p / RawPDU(pr) / ip4() / UDP(1, 2)).clone(); }, [](int v) { return "pppoes " + std::to_string(v); }, "pppoes"});
+    vs.push_back(VS{"icmp-type", 0, 255, [](int v) -> PDU* { ICMP c; c.type((ICMP::Flags)v); return (eth() / ip4() / c).clone(); }, [](int v) { return "icmp[icmptype] = " + std::to_string(v); }, "icmp[icmptype]"});
+    vs.push_back(VS{"ip-ttl", 0, 255, [](int v) -> PDU* { IP i = ip4(); i.ttl((uint8_t)v); return (eth() / i / UDP(1, 2)).clone(); }, [](int v) { return "ip[8] = " + std::to_string(v); }, "ip[8]"});
+    vs.push_back(VS{"ip-last-octet", 0, 255, [](int v) -> PDU* { IP i(IPv4Address("10.1.2." + std::to_string(v)), IPv4Address("10.9.8." + std::to_string(255 - v))); return (eth() / i / TCP(1, 2)).clone(); }, [](int v) { return "ip dst 10.1.2." + std::to_string(v) + " and ip src 10.9.8." + std::to_string(255 - v); }, "ip src+dst"});
+    vs.push_back(VS{"mpls-label(stride 251 + top)", 0, (1 << 20) - 1, [](int v) -> PDU* { MPLS m; m.label((uint32_t)v); return (eth() / m / ip4() / UDP(1, 2)).clone(); }, [](int v) { return "mpls " + std::to_string(v); }, "mpls"});
+    size_t no = 0;
+    for (size_t k = 0; k < vs.size(); ++k) {
+        const VS& S = vs[k];
+        bool strided = S.hi > 65535;
+        int stride = strided ? 251 : ((S.hi > 4095 && !A.thorough()) ? 17 : 1);
+        if (g_reduced && S.hi > 255) stride *= 31;
+        for (int v = S.lo; v <= S.hi; v += stride) {
+            if (no++ % njobs != (size_t)job && g_only.empty()) continue;
+            std::string kase = "family=V sweep=" + std::to_string(k) + " v=" + std::to_string(v);
+            if (!g_only.empty() && kase != g_only) continue;
+            uint64_t my = g_idx++;
+            if (skipped(my)) continue;
+            set_case(my, "C05:field-sweep", kase);
+            Mon::reset();
+            std::unique_ptr<PDU> p(S.make(v));
+            Bytes w = p->serialize();
+            g_fast_counts = true;
+            judge(*p, w, kase, 0);
+            g_fast_counts = false;
+            int dlt = p->pdu_type() == PDU::ETHERNET_II ? DLT_EN10MB : DLT_RAW;
+            int other = v ^ 1; if (other > S.hi) other = v - 1;
+            eval_once(dlt, S.pred(v), true, S.kind, w, kase);
+            eval_once(dlt, S.pred(other), false, S.kind, w, kase);
+            if (Mon::errors) R.violation(Mon::first, Mon::first_detail, kase);
+            R.count("evaluations"); R.count("field_sweep_values");
+            if ((no & 1023) == 0 && deadline_reached()) { R.flags["exhaustive"] = false; return; }
+        }
+    }
+}
+
 static void family_s(int job, int njobs) {
     std::vector<Shape> sh = shapes();
     for (size_t si = 0; si < sh.size(); ++si)
@@ -901,6 +960,7 @@ int main(int argc, char** argv) {
         family_g(job, NJ);
         family_x(job, NJ);
         family_p(job, NJ);
+        family_v(job, NJ);
         family_s(job, NJ);
         if (job == 0) {
             // samples: what a case looks like
@@ -922,6 +982,7 @@ int main(int argc, char** argv) {
                 else if (kase.compare(0, 8, "family=X") == 0) family_x(0, 1);
                 else if (kase.compare(0, 8, "family=P") == 0) family_p(0, 1);
                 else if (kase.compare(0, 8, "family=S") == 0) family_s(0, 1);
+                else if (kase.compare(0, 8, "family=V") == 0) family_v(0, 1);
                 for (auto& v : R.violations) printf("violation reproduced: %s | %s\n", v.first.c_str(), v.second.detail.c_str());
                 if (!R.violations.empty()) return 1;
             }
